@@ -787,6 +787,14 @@ class CompilerPassGenerateCode(CompilerPass):
     ):
         data = node._ndata
         sym = self.get_intermediate_symbol(node)
+        if (
+            isinstance(index, IC10Register)
+            and index.code_expr == sym.code_expr
+            and len(array) > 2
+        ):
+            # x = [..][x]: the index is read again after the first partial result is written,
+            # so the result is built up in a register of its own (the assignment moves it to x)
+            sym = self.get_intermediate_symbol(node, True)
 
         n = len(array)
 
